@@ -18,7 +18,7 @@ RULE = ('(a) AutomatonStepper over synthesized Streett implementations of '
         'raise ValueError exactly when no such values exist; init() must be '
         'completable to a state of init[impl]; then breadth-first over ALL '
         'admissible environment input sequences up to length 4 from every '
-        'initial state, each step re-checked against the table; EnumStrategyStepper over '
+        'initial state, each step re-checked against the table; the same step/init checks for 8 hand-written implementations x 7 type hints (non-negative, sign-crossing, all-negative of several widths; the 4 narrowest on both back ends); EnumStrategyStepper over '
         'the enumerated graph of the same implementation returns the '
         'output part of an initial node / of a successor at every node. (b) '
         'assemblies of 2-3 components from a menu with deliberately '
@@ -43,6 +43,9 @@ def shards(tier, seed):
         s['kind'] = 'stepper'
         s['deep'] = tier == 'thorough'
         out.append(s)
+    for i in range(len(HAND_HINTS)):
+        for a in range(len(HAND_ACTIONS)):
+            out.append(dict(kind='hand', hint=i, action=a))
     n = len(list(_assemblies()))
     for i in range(0, n, 8):
         out.append(dict(kind='assembly', lo=i, hi=i + 8))
@@ -50,6 +53,13 @@ def shards(tier, seed):
 
 
 def cases(shard):
+    if shard['kind'] == 'hand':
+        for be in ('cudd', 'autoref'):
+            if be == 'autoref' and shard['hint'] >= 4:
+                continue
+            yield dict(kind='hand', hint=list(HAND_HINTS[shard['hint']]),
+                       action=shard['action'], backend=be)
+        return
     if shard['kind'] == 'assembly':
         for i, a in enumerate(_assemblies()):
             if shard['lo'] <= i < shard['hi']:
@@ -69,11 +79,113 @@ def cases(shard):
 def run_case(case, acc):
     if case['kind'] == 'assembly':
         run_assembly(case, acc)
+    elif case['kind'] == 'hand':
+        run_hand(case, acc)
     else:
         run_stepper(case, acc)
 
 
 # ---------------------------------------------------------------- steppers
+
+# hand-written implementations over one integer per sign class of hint
+# (non-negative, sign-crossing, all-negative of several widths) and a Boolean
+HAND_HINTS = [(0, 2), (-2, 1), (-3, -1), (-4, -1), (-6, -2), (-1, 5), (3, 4)]
+# (initial condition, action); {lo}/{hi} are the hint's bounds
+HAND_ACTIONS = [
+    ("y = {hi} /\\ b", "(y' = y) /\\ (b' <=> ~ b)"),
+    ("y = {lo}", "(y' = x') /\\ (b' <=> (x' < x))"),
+    ("y = x /\\ ~ b", "(y' < y) /\\ b'"),
+    ("y <= x", "(y' = x) /\\ (b' <=> b)"),
+    ("b", "(y' = {lo}) /\\ ~ b'"),
+    ("y = {lo} /\\ b", "(y' <= x') /\\ (y' >= y) /\\ (b' <=> b)"),
+    ("y = {hi}", "((y' = y - 1) \\/ (y' = {hi})) /\\ (b => b')"),
+    ("~ b", "(y' = {hi}) /\\ (x' = x) /\\ b'"),
+]
+
+
+def run_hand(case, acc):
+    """AutomatonStepper over a hand-written action and initial condition."""
+    import omega.steps as steps
+    import omega.symbolic.temporal as trl
+    from vlib import readout as ro
+    h = tuple(case['hint'])
+    init, action = HAND_ACTIONS[case['action']]
+    init = init.format(lo=h[0], hi=h[1])
+    action = action.format(lo=h[0], hi=h[1])
+    aut = trl.Automaton()
+    if case['backend'] == 'autoref':
+        import dd.autoref
+        aut.bdd = dd.autoref.BDD()
+    aut.declare_variables(x=h, y=h, b='bool')
+    aut.varlist.update(env=['x'], sys=['y', 'b'], impl=['y', 'b'])
+    aut.prime_varlists()
+    aut.init['impl'] = aut.add_expr(init)
+    aut.action['impl'] = aut.add_expr(action)
+    names = ['x', 'y', 'b', "x'", "y'", "b'"]
+    A = ro.Reader(aut, names).table(aut.action['impl'])
+    I = ro.Reader(aut, ['x', 'y', 'b']).table(aut.init['impl'])
+    rng = ro.var_range(aut, 'x')
+    mealy = "x'" in aut.support(aut.action['impl'])
+    st = steps.AutomatonStepper(aut)
+    n = enabled = disabled = 0
+    for x in rng:
+        for y in rng:
+            for b in (False, True):
+                for xp in (rng if mealy else [None]):
+                    n += 1
+                    state = dict(x=x, y=y, b=b)
+                    if mealy:
+                        state["x'"] = xp
+                    exp = {(r[4], r[5]) for r in A
+                           if r[:3] == (x, y, b) and
+                           (not mealy or r[3] == xp)}
+                    try:
+                        r = st.step(state)
+                    except ValueError:
+                        r = None
+                    if r is None:
+                        disabled += 1
+                        if exp:
+                            acc.ev(n=n)
+                            acc.violation(
+                                'stepper_refuses_enabled_state', case,
+                                detail=dict(state=state,
+                                            allowed=sorted(exp)[:4]))
+                            return
+                        continue
+                    enabled += 1
+                    if not exp:
+                        acc.ev(n=n)
+                        acc.violation(
+                            'stepper_returns_values_where_disabled', case,
+                            detail=dict(state=state, returned=r))
+                        return
+                    if set(r) != {'y', 'b'}:
+                        acc.ev(n=n)
+                        acc.violation('stepper_wrong_keys', case, detail=dict(
+                            state=state, returned=r))
+                        return
+                    if (r['y'], r['b']) not in exp:
+                        acc.ev(n=n)
+                        acc.violation(
+                            'stepper_step_not_allowed_by_action', case,
+                            detail=dict(state=state, returned=r,
+                                        allowed=sorted(exp)[:6]))
+                        return
+    n += 1
+    r0 = st.init()
+    if not set(r0) <= {'y', 'b'}:
+        acc.ev(n=n)
+        acc.violation('stepper_init_wrong_keys', case,
+                      detail=dict(returned=r0))
+        return
+    ix = dict(x=0, y=1, b=2)
+    if not any(all(s[ix[k]] == v for k, v in r0.items()) for s in I):
+        acc.ev(n=n)
+        acc.violation('stepper_init_violates_initial_condition', case,
+                      detail=dict(returned=r0, init=init))
+        return
+    acc.ev(dict(c=case), nontrivial=enabled > 0 and disabled > 0, n=n)
 
 def run_stepper(case, acc):
     import omega.steps as steps
